@@ -848,6 +848,10 @@ class Group(System):
                         graph.add_node(comp, local=False)
                         empty_comps.add(comp)
 
+        # the residuals of an implicit component can depend on any of its own outputs
+        implicit_comps = {s.pathname for s in self.system_iter(recurse=True,
+                                                               typ=ImplicitComponent)}
+
         resolver = self._resolver
         for direction in ('input', 'output'):
             isout = direction == 'output'
@@ -861,6 +865,8 @@ class Group(System):
 
                 if isout:
                     graph.add_edge(comp, vname)
+                    if comp in implicit_comps and flags & CONTINUOUS:
+                        graph.add_edge(vname, comp)
                 else:
                     graph.add_edge(vname, comp)
 
